@@ -195,8 +195,47 @@ def run(ctx):
                     if render_gen.in_domain(t, dt, cur):
                         check_case(ctx, P, PP, t, dt, 3, '.', off, 'str', cur, hits)
                         ctx.count('systematic')
+        if ctx.shard == 0:
+            two_digit_year_window(ctx, P, PP)
     finally:
         uninstall()
+
+
+def two_digit_year_window(ctx, P, PP):
+    """Two-digit years resolve to the unique year within -50..+49 of the *current* year: the process clock is replaced
+    (for the construction of a parserinfo only) by clocks showing other years, so that both directions of the century
+    correction and the turn of a century are observed, not only this year's window."""
+    real_time = PP.time
+
+    class Clock(object):
+        def __init__(self, year):
+            self.year = year
+
+        def localtime(self, *a):
+            return real_time.struct_time((self.year, 6, 15, 12, 0, 0, 0, 166, 0))
+
+        def __getattr__(self, name):
+            return getattr(real_time, name)
+    for year in (1949, 1950, 1999, 2000, 2001, 2026, 2049, 2050, 2051, 2070, 2099, 2100, 2149):
+        PP.time = Clock(year)
+        try:
+            info = P.parserinfo()
+        finally:
+            PP.time = real_time
+        for yy in range(100):
+            exp_year = [y for y in range(year - 50, year + 50) if y % 100 == yy][0]
+            for text, flags in (('Mar 04 %02d' % yy, {}), ('04/03/%02d' % yy, {'dayfirst': True}), ('%02d-03-04' % yy, {'yearfirst': True})):
+                ctx.ev()
+                ctx.count('two_digit_window_cases')
+                ctx.distinct('yy-window|%d|%d' % (year, yy // 10))
+                case = {'workload': 'two-digit-year-window', 'clock_year': year, 'text': text, 'flags': flags}
+                try:
+                    got = P.parser(info).parse(text, **flags)
+                except Exception as e:
+                    ctx.violation('two-digit-year', case, 'raised %s: %s' % (type(e).__name__, e))
+                    continue
+                if (got.year, got.month, got.day) != (exp_year, 3, 4):
+                    ctx.violation('two-digit-year', case, 'with the clock in %d, %r gave %s; the year within -50..+49 is %d' % (year, text, got.date(), exp_year))
 
 
 def floors(agg, tier):
